@@ -24,6 +24,7 @@ type c20Case struct {
 	Ops     []string   `json:"ops,omitempty"`
 	Threads [][]string `json:"threads,omitempty"`
 	Stale   int        `json:"stale"` // 0 | 1 (entry) | 2 (entry + file)
+	Big     bool       `json:"big,omitempty"` // two more stale entries in front of f.snap, 9 KB of text after them (more than a reader's first buffer)
 	Sort    bool       `json:"sort,omitempty"`
 	CI      bool       `json:"ci,omitempty"`
 	Env     string     `json:"env"`
@@ -200,6 +201,7 @@ func c20Gen(c *vfCtx, emit func(c20Case)) {
 			emit(c20Case{Kind: "seq", Ops: w, Stale: stale, Env: env})
 		}
 		emit(c20Case{Kind: "seq", Ops: []string{c20Ops[i]}, Stale: 4, Env: env, Sort: i%2 == 0})
+		emit(c20Case{Kind: "seq", Ops: []string{c20Ops[i], "snap:pass"}, Stale: 1 + i%2, Big: true, Env: env, Sort: i%3 == 0})
 		emit(c20Case{Kind: "seq", Ops: []string{c20Ops[i], "snapg:pass"}, Stale: 3, Env: env})
 		emit(c20Case{Kind: "seq", Ops: []string{"snapg:pass", c20Ops[i], "snap:pass"}, Stale: 3, Env: env, Sort: true})
 		emit(c20Case{Kind: "seq", Ops: []string{c20Ops[i], c20Ops[i], c20Ops[i], c20Ops[i], c20Ops[i], c20Ops[i]}, Stale: 1, Env: env})
@@ -284,6 +286,21 @@ func c20Stale(dir string, stale int) {
 	}
 }
 
+var c20BigIDs = []string{"TestGoneEarly - 1", "TestGoneEarly/with_a_longer_name_than_most - 2", "TestGoneBig - 1"}
+
+// c20BigFront puts three stale entries in front of f.snap; the last one is 9 KB of short lines, so whoever reads the file
+// line by line has refilled its buffer several times before it reaches the end.
+func c20BigFront(dir string) {
+	p := filepath.Join(dir, "f.snap")
+	rest, _ := os.ReadFile(p)
+	var big strings.Builder
+	for i := 0; big.Len() < 9000; i++ {
+		fmt.Fprintf(&big, "line %04d of a long report, some words to fill it up\n", i)
+	}
+	front := vfRender([]vfEntry{{ID: c20BigIDs[0], Body: "early"}, {ID: c20BigIDs[1], Body: "early 2"}, {ID: c20BigIDs[2], Body: strings.TrimSuffix(big.String(), "\n")}})
+	os.WriteFile(p, append(front, rest...), 0o644)
+}
+
 // c20CheckSummary compares the printed summary with the model's totals.
 func c20CheckSummary(out string, want map[string]int, staleTests, staleFiles []string, removed bool) string {
 	s := vfParseSummary(out)
@@ -363,6 +380,9 @@ func c20Run(c *vfCtx, cs c20Case) {
 	names := c20Names(cs.Ops, "Op")
 	c20Prepare(dir, names, cs.Ops)
 	c20Stale(dir, cs.Stale)
+	if cs.Big {
+		c20BigFront(dir)
+	}
 	vfResetState(cs.CI, cs.Env, true)
 	want := map[string]int{}
 	multi := false
@@ -412,6 +432,9 @@ func c20Run(c *vfCtx, cs c20Case) {
 	var staleT, staleF []string
 	if multiF && cs.Stale >= 1 {
 		staleT = append(staleT, c20StaleID)
+	}
+	if multiF && cs.Big {
+		staleT = append(staleT, c20BigIDs...)
 	}
 	if !multiF && visited && cs.Stale >= 1 {
 		staleF = append(staleF, "f.snap") // nobody addressed the multi-entry file in this run
